@@ -8,6 +8,9 @@ operation) and the code in NUTREE_REPO.  For every history, after EVERY step:
   groups) equals the model's state, AND the model's decidable invariant checker `wf_world_b` (proved
   equivalent to `WFw`, C01_checker_sound) answers true on the model's state - the expected observation
   carries a literal 1 for every step;
+* heap refinement (`CaseHeap.run_heap`, harness/heap_obs.py): the RAW pointers `_parent`, `_children` (None vs list object)
+  and `_tree` of EVERY node object ever allocated (live, removed, refused at creation) equal the ones of the pointer-level
+  model Mut/Heap.v after every step (for the operations that model covers; marker -1 afterwards);
 * oracle, independent of the model and of the library's own `_self_check` (pointer walks by identity):
   `mut.wf_oracle` (reachable = counted = len(tree), every reachable node reports the tree as owner, has the
   node whose child list holds it as parent, occurs exactly once in that list, is never its own ancestor / never
@@ -23,6 +26,7 @@ import common as H
 import mut
 import mut_ex
 import mut_c01
+import heap_obs
 from common import Case
 
 # wider levels than the exhaustive bound of the quick tier reaches: a node with three / four children (below the
@@ -32,10 +36,16 @@ QUICK_FAMILIES = ("add", "short", "move", "remove", "remove_children", "clear", 
 CHUNK = 40
 
 
-def hooks():
+def hooks(sink=None):
+    """(pre, post) for one replay: the removed-set oracle, and the raw-pointer observation for the heap
+    refinement (harness/heap_obs.py) - the observer is appended to `sink`"""
     ro = mut_ex.RemovedOracle()
+    ho = heap_obs.HeapObserver()
+    if sink is not None:
+        sink.append(ho)
 
     def post(w, si, step, ctx):
+        ho.post(w, si, step, ctx)
         m = ro(w)
         return [("removed", m)] if m else []
 
@@ -148,9 +158,11 @@ class Prop:
 
     def run(self, desc) -> Case:
         if desc["kind"] == "alts":
-            setup, runs = mut_ex.run_group(desc, oracles=self.ORACLES, hooks=hooks)
+            sink = []
+            setup, runs = mut_ex.run_group(desc, oracles=self.ORACLES, hooks=lambda: hooks(sink))
             term = mut.coq_alts(setup, runs)
-            obs = [[setup.obs, [r.obs[-1] for r in runs]], [[1] * len(setup.obs), [1] * len(runs)]]
+            obs = [[setup.obs, [r.obs[-1] for r in runs]], [[1] * len(setup.obs), [1] * len(runs)],
+                   [sink[0].obs, [o.obs[-1] for o in sink[1:]]]]
             fails = [(r.steps[-1]["op"], f) for r in runs for f in r.fails]
             fails = [(setup.steps[f[0]]["op"], f) for f in setup.fails] + fails
             changed = sum(1 for r in runs if r.steps[-1]["before"] != r.steps[-1]["after"])
@@ -165,9 +177,10 @@ class Prop:
                          changed_share=round(changed / max(1, len(runs)), 1))
             nontrivial = changed > 0
         else:
-            pre, post = hooks()
+            sink = []
+            pre, post = hooks(sink)
             r = mut_ex.replay(dict(univ=desc["univ"], ops=desc["ops"]), oracles=self.ORACLES, pre=pre, post=post)
-            term, obs = mut.coq_case(r), [r.obs, [1] * len(r.obs)]
+            term, obs = mut.coq_case(r), [r.obs, [1] * len(r.obs), sink[0].obs]
             fails = [(r.steps[si]["op"], (si, n, m)) for si, n, m in r.fails]
             changed = sum(1 for s in r.steps if s["before"] != s["after"])
             errs = sum(1 for s in r.steps if s["res"][0] == 1)
